@@ -1,6 +1,6 @@
 (* C11: the hypotheses of the theorems are satisfiable on non-trivial concrete inputs. *)
 From Coq Require Import ZArith List String Bool.
-From Verif Require Import Value Coll Cursor C11Keys C11Cursor.
+From Verif Require Import Value Coll Cursor C11Keys C11Cursor C11Full.
 Import ListNotations.
 Open Scope Z_scope.
 Open Scope string_scope.
@@ -51,4 +51,26 @@ Example ex_count :
   count_spec ex_docs ex_filter 2 (Some 4) = Some 4 /\
   count_spec ex_docs ex_filter 5 (Some 4) = Some 2 /\
   count_spec ex_docs ex_filter 9 None = Some 0 /\ c11_docs_ok ex_docs = true.
+Proof. vm_compute. repeat split; reflexivity. Qed.
+
+(* the same program with its evaluation counted (C11_cursor_full): the prefix ending in the
+   cursor[0] call is decided too *)
+Example ex_cursor_full :
+  cursor_spec_full ex_docs ex_filter [("_id", -1)] 3 2 ex_meths =
+    cursor_spec ex_docs ex_filter [("_id", -1)] 3 2 ex_meths /\
+  (exists L, cursor_spec_full ex_docs ex_filter [("_id", -1)] 3 2 ex_meths = Some L) /\
+  c11_peeks_ok [("_id", -1)] ex_meths = true /\
+  List.length (peek_prefixes [] ex_meths) = 1%nat.
+Proof. vm_compute. repeat split; try reflexivity. eexists; reflexivity. Qed.
+
+(* an evaluation under an order the library cannot establish (two of its own ObjectIds) raises,
+   although the calls after it replace that sort: cursor_run, which ignores the evaluation, and
+   cursor_spec still answer; cursor_run_full raises and cursor_spec_full does not decide *)
+Definition oid_docs : list value :=
+  [VDoc [("_id", VInt 0); ("a", VOid 1)]; VDoc [("_id", VInt 1); ("a", VOid 2)]].
+Example ex_peek_raises :
+  cursor_run oid_docs (VDoc []) [("a", -1)] 0 0 [MPeek; MSort [("_id", -1)]] = Ok (rev oid_docs) /\
+  cursor_spec oid_docs (VDoc []) [("a", -1)] 0 0 [MPeek; MSort [("_id", -1)]] = Some (rev oid_docs) /\
+  cursor_run_full oid_docs (VDoc []) [("a", -1)] 0 0 [MPeek; MSort [("_id", -1)]] = Err EType /\
+  cursor_spec_full oid_docs (VDoc []) [("a", -1)] 0 0 [MPeek; MSort [("_id", -1)]] = None.
 Proof. vm_compute. repeat split; reflexivity. Qed.
